@@ -540,6 +540,11 @@ class MBuilder:
                 if mb.decide_reusable(node):
                     mb.v[p] = mb.m.disk[p]
                     node.out = cmpval(mb.v[p], node.cmp)
+                    # a correct cache serves the RECORDED value: identical to the fresh one by
+                    # determinism, except where METADATA is documentedly blind to a content change
+                    ret = copy.deepcopy(mb.prev.index[node.key].ret)
+                    node.ret = ret
+                    node.cret = canon(ret)
                 else:
                     mb.v[p] = ('f', content, ('fixed', p) if p in mb.fixed else Stamp.fresh())
                     node.out = cmpval(mb.v[p], node.cmp)
@@ -586,7 +591,11 @@ class MBuilder:
             node.ret = ret
             node.cret = canon(ret)
             with mb.lock:
-                mb.decide_reusable(node)
+                if mb.decide_reusable(node):
+                    # see build_file: the recorded value is what a correct cache returns
+                    ret = copy.deepcopy(mb.prev.index[node.key].ret)
+                    node.ret = ret
+                    node.cret = canon(ret)
             return copy.deepcopy(ret)
         finally:
             self._append(node)
